@@ -14,11 +14,14 @@ import (
 
 	coreheader "cosmossdk.io/core/header"
 	errorsmod "cosmossdk.io/errors"
+	"cosmossdk.io/log"
 	"cosmossdk.io/math"
 	abci "github.com/cometbft/cometbft/abci/types"
 	cmted25519 "github.com/cometbft/cometbft/crypto/ed25519"
 	cmtproto "github.com/cometbft/cometbft/proto/tendermint/types"
 	cmttypes "github.com/cometbft/cometbft/types"
+	dbm "github.com/cosmos/cosmos-db"
+	"github.com/cosmos/cosmos-sdk/baseapp"
 	codectypes "github.com/cosmos/cosmos-sdk/codec/types"
 	cryptocodec "github.com/cosmos/cosmos-sdk/crypto/codec"
 	"github.com/cosmos/cosmos-sdk/crypto/keys/secp256k1"
@@ -26,6 +29,7 @@ import (
 	authtypes "github.com/cosmos/cosmos-sdk/x/auth/types"
 	banktestutil "github.com/cosmos/cosmos-sdk/x/bank/testutil"
 	banktypes "github.com/cosmos/cosmos-sdk/x/bank/types"
+	"github.com/cosmos/cosmos-sdk/x/crisis"
 	stakingtypes "github.com/cosmos/cosmos-sdk/x/staking/types"
 
 	"github.com/dymensionxyz/dymension/v3/app"
@@ -41,6 +45,32 @@ type Fix struct {
 	Ctx    sdk.Context
 	Height int64
 	Time   time.Time
+	// Rebind: closures a package harness registers to refresh whatever it derived from f.App (cached
+	// keepers, query servers, ante handlers) when the application behind this fixture is replaced by
+	// an imported copy (C18 continue-after-import, see c18_fork.go)
+	Rebind []func()
+	// Imported: the application behind this fixture is an imported copy (set by SwapTo)
+	Imported bool
+}
+
+// Restore puts the fixture back on the application and context of a saved copy of itself (package
+// harnesses that start every trace from a branch of one prepared chain): a new chain as far as the
+// traces are concerned.
+func (f *Fix) Restore(saved Fix) {
+	f.App, f.Ctx, f.Height, f.Time, f.Imported = saved.App, saved.Ctx, saved.Height, saved.Time, saved.Imported
+	fixEpoch++
+	for _, fn := range f.Rebind {
+		fn()
+	}
+}
+
+// SwapTo makes this fixture (and so every harness object holding the pointer) run on the application
+// of f2 from now on; the registered Rebind closures run afterwards.
+func (f *Fix) SwapTo(f2 *Fix) {
+	f.App, f.Ctx, f.Height, f.Time, f.Imported = f2.App, f2.Ctx, f2.Height, f2.Time, true
+	for _, fn := range f.Rebind {
+		fn()
+	}
 }
 
 // blockFailHook (C11) is told about every error or recovered panic of the application's
@@ -52,6 +82,11 @@ var (
 
 // lastFix is the most recently created fixture (used by the generic C18 hook in Run.Trace).
 var lastFix *Fix
+
+// fixEpoch counts the chains started so far: a new fixture, or a fixture put back to a saved start
+// (Fix.Restore).  Traces of one epoch run on the same chain one after the other (C18
+// continue-after-import compares a whole epoch and replays it from its start).
+var fixEpoch int
 
 var BaseTime = time.Date(2024, 1, 1, 0, 0, 0, 0, time.UTC)
 
@@ -123,6 +158,7 @@ func NewFix(t *testing.T) *Fix {
 	f := &Fix{T: t, App: a, Height: 1, Time: BaseTime}
 	f.setCtx()
 	lastFix = f
+	fixEpoch++
 	return f
 }
 
@@ -358,6 +394,22 @@ func (f *Fix) ImportedCopy() (f2 *Fix, exp1, exp2 map[string]json.RawMessage, er
 // of the InitChainer context (InitChain itself has none).  Only used to continue a comparison after
 // the faithful import was rejected for exactly that reason.
 func (f *Fix) ImportedCopyOpt(withProposer bool) (f2 *Fix, exp1, exp2 map[string]json.RawMessage, err error) {
+	return f.importedCopy(withProposer, false)
+}
+
+// skipInvOpts: the node operator's --x-crisis-skip-assert-invariants
+type skipInvOpts struct{}
+
+func (skipInvOpts) Get(k string) interface{} {
+	if k == crisis.FlagSkipGenesisInvariants {
+		return true
+	}
+	return nil
+}
+
+// importedCopy with skipInv builds the fresh application with the crisis module's genesis assertion
+// switched off (a state that breaks a registered invariant can be imported only that way).
+func (f *Fix) importedCopy(withProposer, skipInv bool) (f2 *Fix, exp1, exp2 map[string]json.RawMessage, err error) {
 	defer func() {
 		if e := recover(); e != nil {
 			err = &PanicError{Val: e, Stack: string(debug.Stack())}
@@ -369,6 +421,9 @@ func (f *Fix) ImportedCopyOpt(withProposer bool) (f2 *Fix, exp1, exp2 map[string
 		return nil, exp1, nil, merr
 	}
 	a2, _ := apptesting.SetupTestingApp()
+	if skipInv {
+		a2 = app.New(log.NewNopLogger(), dbm.NewMemDB(), nil, true, skipInvOpts{}, baseapp.SetChainID(apptesting.TestChainID))
+	}
 	// the imported chain starts at the height and time of the exporting CONTEXT (some package harnesses
 	// advance f.Ctx directly without touching f.Height / f.Time: the copy used to start in their past,
 	// so time-dependent queries — expiry of Dym-Names, gauge and stream classification — were compared
